@@ -1100,7 +1100,7 @@ def round9_programs(ctx, aim):
     """round 9 families (compared between builds only): unwind_switch / unwind_random / readmitted / churn; `aim` (from a
     broken debug-only-site table) multiplies the aimed families and repeats the aimed older directed families"""
     quick = ctx.quick()
-    progs = C10_r9.UnwindSwitch(ctx.rng).programs(40 if quick else 120) + C10_r9.readmitted(ctx.rng) + C10_r9.churn_programs(ctx.rng, quick)
+    progs = C10_r9.UnwindSwitch(ctx.rng).programs(30 if quick else 120, half=quick) + C10_r9.readmitted(ctx.rng) + C10_r9.churn_programs(ctx.rng, quick)
     if aim:
         if "unwind_switch" in aim or "unwind_random" in aim:
             for rnd in range(2):
